@@ -26,6 +26,44 @@ check("C14", level="model_checking", engine="ix",
       note="Trusts the reference normaliser RefCanon in src/ix/canon.cc; other byte values are opaque to the routine.",
       design_ref="5/C14")
 
+NX_NOTE = ("Trusted base: the simulated environment (src/nx/simproc.cc commands and completion choices, src/common/simfs.cc "
+           "libc-level in-memory files), the reference models in src/nx/explore.cc and the scenario generators in lib/. "
+           "ninja's own code runs unmodified (real_main, Builder, Plan, Pool, RealCommandRunner, RealDiskInterface, logs). "
+           "Bounds: curated templates + generated graph families listed in the evidence; history depth and schedule "
+           "bounds as reported there.")
+
+check("C01", level="model_checking", engine="nx",
+      technique="explicit-state BFS over histories x exhaustive schedule DFS on the real ninja main loop, clean-build content oracle",
+      text="Every world reachable within the history depth from a fresh and from a built tree of each scenario (templates + all "
+           "2-statement graphs over 4 rule kinds; thorough adds 3-statement and 3-input families and deeper histories) is "
+           "expanded by every operation of the alphabet; each ninja invocation is run under every completion schedule "
+           "(all subsets of simultaneous completions); after every exit 0 the target closure must equal the clean-build "
+           "oracle computed from the true graph. Complete within the stated bounds.",
+      note=NX_NOTE, design_ref="5/C01")
+check("C02", level="model_checking", engine="nx",
+      technique="explicit-state BFS over histories x exhaustive schedule DFS; immediate re-run oracle",
+      text="Same exploration as C01; after every successful invocation on every schedule the identical invocation is repeated: "
+           "no command may start, 'no work to do' must be printed, exit 0, and the world must be unchanged.",
+      note=NX_NOTE, design_ref="5/C02")
+check("C04", level="model_checking", engine="nx",
+      technique="exhaustive schedule DFS (all completion subsets) with a start-time ordering monitor on the real Builder/Plan",
+      text="On every schedule of every explored invocation (-j1/2/3/4, pools, validations, phony chains) each command start is "
+           "checked: all producers that run have finished successfully, output/depfile directories exist, response file "
+           "holds the declared content.",
+      note=NX_NOTE, design_ref="5/C04")
+check("C05", level="model_checking", engine="nx",
+      technique="fault-set x schedule enumeration on the real Builder/Plan with trace and log oracles",
+      text="Every single failing statement (and pairs on parallel templates), with and without overwritten outputs, under "
+           "-k1/-k0/-k2 and every schedule: containment, exit status, budget, no log record for failures, successes recorded, "
+           "independent work started (differential against the fault-free run), retry by the next build.",
+      note=NX_NOTE, design_ref="5/C05")
+check("C06", level="model_checking", engine="nx",
+      technique="exhaustive schedule DFS with concurrency-limit, at-most-once, liveness (hang/stuck/horizon) and idle-slot monitors",
+      text="On every schedule: running <= -j, per pool <= depth, console <= 1, each statement at most once per manifest cycle, "
+           "no hang (wait with nothing running), never 'stuck', and no wait while a later-started statement was startable.",
+      note=NX_NOTE + " Jobserver token accounting is not covered yet by this check (planned: engine B with a real FIFO).",
+      design_ref="5/C06")
+
 ALL = ["C%02d" % i for i in range(1, 21)]
 
 
